@@ -232,6 +232,28 @@ func c16Invalidations() []invDev {
 			})
 		}
 	}
+	// COSE: attribute values that can be written but not read back by the library (an unsigned integer above the int64 range at any
+	// depth; a value nested deeper than the reader follows): the envelope would not parse, so this is not a request to sign
+	deep := func(levels int) any {
+		var v any = "bottom"
+		for i := 0; i < levels; i++ {
+			v = []any{v}
+		}
+		return v
+	}
+	for _, bv := range []struct {
+		n string
+		v any
+	}{{"uint64(2^63)", uint64(1) << 63}, {"uint64(2^64-1)", ^uint64(0)}, {"uint(2^63)", uint(1) << 63}, {"uint64(2^63)-inside-a-list", []any{"x", uint64(1) << 63}},
+		{"uint64(2^63)-inside-a-map", map[any]any{"k": []any{uint64(1) << 63}}}, {"uint64(2^63)-as-a-map-key", map[any]any{uint64(1) << 63: "v"}}, {"nested-40-levels", deep(40)}} {
+		bv := bv
+		for _, crit := range []bool{false, true} {
+			crit := crit
+			post(fmt.Sprintf("cose-ext-value-unreadable=%s(critical=%v)", bv.n, crit), "ext", "cose", "", func(r *reqSpec, req *signature.SignRequest, rs *envenc.RemoteSigner) {
+				req.ExtendedSignedAttributes = []signature.Attribute{attr("io.example.unreadable", crit, bv.v)}
+			})
+		}
+	}
 	// a repeated key whose first (or second) occurrence carries a nil value
 	post("ext-duplicate-key(first value nil)", "ext", "", "", func(r *reqSpec, req *signature.SignRequest, rs *envenc.RemoteSigner) {
 		req.ExtendedSignedAttributes = []signature.Attribute{attr("io.example.a", true, nil), attr("io.example.a", false, "b")}
